@@ -155,7 +155,21 @@ def handle (req : Json) : Json :=
           | .error .inference => Json.str "inference"
           | .ok l => Json.arr (l.map (fun (p : String × Option Ty) =>
               Json.arr #[Json.str p.1, otyJ p.2])).toArray)]
-    return Json.mkObj (base ++ extra)) with
+    -- value propagation: the values observed on the real output Vars are offered as the backend's answer
+    let vpExtra ← match (req.getObjVal? "values").toOption, inferJ with
+      | some (.arr vs), .arr _ => do
+        let offered ← vs.toList.mapM (fun (e : Json) => do
+          let p ← e.getArr?
+          let k ← (p.getD 0 Json.null).getStr?
+          let v ← (p.getD 1 Json.null).getStr?
+          return (k, v))
+        let ans ← parseInfer inferJ
+        match constructVP (fun _ => ans) (fun _ _ => offered) c with
+        | .error _ => pure [("vp", Json.str "error")]
+        | .ok outs => pure [("vp", Json.arr (outs.map (fun (o : OutVar) =>
+            Json.arr #[Json.str o.key, otyJ o.ty, match o.val with | none => Json.null | some v => Json.str v])).toArray)]
+      | _, _ => pure []
+    return Json.mkObj (base ++ extra ++ vpExtra)) with
   | .ok j => j
   | .error e => Json.mkObj [("error", e)]
 
